@@ -39,9 +39,9 @@ pub fn areas() -> Vec<&'static str> {
     vec![
         "c14",
         "c17",
+        "c18",
         "c19",
     ]
-    vec!["c17", "c18"]
 }
 
 /// Decode a hex string.
